@@ -355,6 +355,26 @@ class C05Ledger(Monitor):
                 yield Violation("C05", "energy gained by vehicles != energy dispensed by stations (step)", {"type": et, "gained": dg[et], "dispensed": dd[et]})
             elif abs(gained[et] - disp[et]) > TOL:
                 yield Violation("C05", "energy gained by vehicles != energy dispensed by stations (cumulative)", {"type": et, "gained": gained[et], "dispensed": disp[et]})
+        # what the stations *report* as dispensed: the per-step station load records HIVE derives from the step's reports (the
+        # event log's station_load_event rows; the history worlds write no log, so the same function is applied to the
+        # captured reports). Per station they must add up to what the station's state says it dispensed in the step.
+        charge = [(t, e) for t, e in events if t == "VEHICLE_CHARGE_EVENT"]
+        if charge:
+            from nrel.hive.reporting import vehicle_event_ops
+            from nrel.hive.reporting.report_type import ReportType
+            from nrel.hive.reporting.reporter import Report
+
+            loads = vehicle_event_ops.construct_station_load_events(tuple(Report(ReportType[t], dict(e)) for t, e in events if t in ReportType.__members__), after)
+            rep = collections.Counter()
+            for r in loads:
+                rep[r.report["station_id"]] += float(r.report["energy"])
+            if len({e["station_id"] for _, e in charge}) >= 2:
+                h.flag("two_stations_dispensing_in_one_step")
+            for sid in sorted({e["station_id"] for _, e in charge} | set(rep)):
+                s0, s1 = before.stations.get(sid), after.stations.get(sid)
+                state_d = sum(x - (s0.energy_dispensed.get(et, 0.0) if s0 is not None else 0.0) for et, x in s1.energy_dispensed.items()) if s1 is not None else 0.0
+                if abs(rep[sid] - state_d) > 1e-9:
+                    yield Violation("C05", "station load report != energy the station dispensed in the step", {"station": sid, "reported": rep[sid], "dispensed": state_d, "charge_events": [[e["vehicle_id"], e["station_id"], float(e["energy"])] for _, e in charge]})
         # flag: session cut short by an instruction
         for e in _events(events, "INSTRUCTION"):
             b = before.vehicles.get(e["vehicle_id"])
@@ -550,6 +570,13 @@ class C07Location(Monitor):
 
     def after_probe(self, h, before, after, instruction, vid):
         yield from self.check_state(after, "after single instruction")
+        # a trip is started only at the request's origin (no time passes in a probe: the vehicle is where it was)
+        va, vb = after.vehicles.get(vid), before.vehicles.get(vid)
+        if va is not None and vb is not None and sname(va) == "ServicingTrip" and sname(vb) != "ServicingTrip":
+            h.flag("trip_started_by_single_instruction")
+            if vb.geoid != va.vehicle_state.request.origin:
+                yield Violation("C07", "trip started away from the request's origin by a single " + type(instruction).__name__,
+                                {"vehicle": vid, "position": vb.geoid, "origin": va.vehicle_state.request.origin, "request": va.vehicle_state.request.id})
         yield from self.trip_ends(h, before, after, "by a single " + type(instruction).__name__,
                                   {vid} if type(instruction).__name__ == "OutOfServiceInstruction" else ())
 
@@ -750,6 +777,12 @@ class C17Assignment(Monitor):
                     h.stats["builtin_dispatches"] += 1
                     if r.dispatched_vehicle is not None:
                         yield Violation("C17", "built-in dispatcher sent a vehicle to a request that already records one", {"request": r.id, "recorded": r.dispatched_vehicle, "sent": i.vehicle_id, "recorded_at": int(r.dispatched_vehicle_time) if r.dispatched_vehicle_time is not None else None})
+                    # "at most one vehicle is travelling to any given request", judged at the moment the dispatcher decides (a short trip
+                    # may end in this very step and hide the pair from the state after the step): requests that no scripted controller
+                    # ever named and no client re-offered
+                    under_way = sorted(v.id for v in g.seen.vehicles.values() if sname(v) == "DispatchTrip" and v.vehicle_state.request_id == r.id and v.id != i.vehicle_id)
+                    if under_way and r.id not in h.scripted_request_targets:
+                        yield Violation("C17", "built-in dispatcher sent a second vehicle to a request another vehicle is travelling to", {"request": r.id, "travelling": under_way, "sent": i.vehicle_id, "recorded": r.dispatched_vehicle})
         pure_builtin = h.builtin and h.stats["instructions_queued"] == 0
         if pure_builtin and h.step_no >= 5:
             h.flag("five_steps_under_builtin_generators_alone")
@@ -760,8 +793,13 @@ class C17Assignment(Monitor):
             if sname(v) == "DispatchTrip":
                 disp[v.vehicle_state.request_id].append(v.id)
         for rid, vs in disp.items():
-            if len(vs) > 1 and pure_builtin and rid in after.requests:
-                yield Violation("C17", "built-in dispatcher has two vehicles travelling to one request", {"request": rid, "vehicles": sorted(vs)})
+            # requests that only the built-in dispatcher ever dispatched vehicles to (no scripted DispatchTrip instruction named them,
+            # no client re-offered them): whatever else the scripted controllers do to the vehicles - accepted instructions take them
+            # off the trip and clear the record, refused ones change nothing - at most one vehicle is on its way
+            if len(vs) > 1 and h.builtin and rid in after.requests and (pure_builtin or rid not in h.scripted_request_targets):
+                yield Violation("C17", "built-in dispatcher has two vehicles travelling to one request", {"request": rid, "vehicles": sorted(vs), "scripted_instructions_queued": h.stats["instructions_queued"]})
+            if h.builtin and not pure_builtin and rid not in h.scripted_request_targets:
+                h.flag("builtin_dispatched_request_among_scripted_instructions")
         for v in after.vehicles.values():
             b = before.vehicles[v.id]
             if sname(b) == "DispatchTrip" and b.vehicle_state.instance_id != v.vehicle_state.instance_id:
